@@ -11,12 +11,12 @@ pub static DEF: CheckDef = CheckDef {
     id: "C15",
     run,
     replay,
-    rule: "proptest frames: VRAM from a seed in three styles (arbitrary bytes; sparse tile data with small map alphabets; solid / striped tiles), OAM of 0-40 generated objects (Y and X biased to the screen edges, to X in 1..7 and 161..167, to one shared line so that more than ten compete, to equal X; any tile and attribute byte), SCX/SCY any, WX in {0..6, 7..166, 167..255}, WY any (biased to 0..143), BGP/OBP0/OBP1 any, LCDC bits 1-6 any with bits 0 and 7 set, all held constant over the frame. In two cases out of five one or two earlier frames with other LCDC / scroll / window / OAM contents are presented first (registers and OAM rewritten at the start of the vertical blank), and the measured frame must not depend on them. The machine is driven from power-on through the frame(s) (70224 clocks each) twice - in 4-clock batches and in generated larger batches - and the buffer presented at VBlank is compared pixel by pixel with the reference composition (models::ppu); both runs must also agree with each other. Whole-core layer: the scene is built by a guest program (tile data and maps copied from ROM into video RAM, the object table stored into OAM directly or moved there by OAM DMA, the registers written, then HALT with every source disabled) executed by update() of the interpreter build, block-stepped on the interpreter build and block-stepped on the jit build; two frames later the presented buffer must be the reference composition of that scene. Non-trivial = frame with window pixels visible, an object pixel visible, a BG-over-OBJ pixel, a line with more than ten candidate objects, a flipped or 8x16 object pixel, or overlapping objects (measured on the reference); distinct by hash of the case.",
+    rule: "proptest frames: VRAM from a seed in three styles (arbitrary bytes; sparse tile data with small map alphabets; solid / striped tiles), OAM of 0-40 generated objects (Y and X biased to the screen edges, to X in 1..7 and 161..167, to one shared line so that more than ten compete, to equal X; any tile and attribute byte), SCX/SCY any, WX in {0..6, 7..166, 167..255}, WY any (biased to 0..143), BGP/OBP0/OBP1 any, LCDC bits 1-6 any with bits 0 and 7 set, all held constant over the frame. In two cases out of five one or two earlier frames with other LCDC / scroll / window / OAM contents are presented first (registers and OAM rewritten at the start of the vertical blank; in half of these the tile data is rewritten too, under the same maps, and the scroll values are biased so that the last tile row fetched on line 143 and the first fetched on line 0 are the same row of the same tile), and the measured frame must not depend on them. The machine is driven from power-on through the frame(s) (70224 clocks each) twice - in 4-clock batches and in generated larger batches - and the buffer presented at VBlank is compared pixel by pixel with the reference composition (models::ppu); both runs must also agree with each other. Whole-core layer: the scene is built by a guest program (tile data and maps copied from ROM into video RAM, the object table stored into OAM directly or moved there by OAM DMA, the registers written, then HALT with every source disabled) executed by update() of the interpreter build, block-stepped on the interpreter build and block-stepped on the jit build; two frames later the presented buffer must be the reference composition of that scene. Non-trivial = frame with window pixels visible, an object pixel visible, a BG-over-OBJ pixel, a line with more than ten candidate objects, a flipped or 8x16 object pixel, or overlapping objects (measured on the reference); distinct by hash of the case.",
     assumptions: &[
         "models::ppu: first ten objects in OAM order whose rows cover the line regardless of X; lowest X then lowest OAM index; the first non-transparent object pixel decides and carries its own BG-over-OBJ bit; window where LCDC.5 and y >= WY and x+7 >= WX and WX <= 166, its row counted as y - WY; signed tile addressing when LCDC.4 = 0; 8x16 objects ignore bit 0 of the tile index",
         "registers, VRAM and OAM constant over the frame; LCD and BG enabled (LCDC bits 7 and 0 set); DMG window glitches at WX = 0 / 166 are out of scope",
     ],
-    required_classes: &["window-visible", "object-visible", "bg-over-obj", "more-than-ten-on-a-line", "flipped-object", "tall-object", "overlapping-objects", "object-partly-off-screen", "wx-below-7", "wx-above-166", "signed-tile-addressing", "after-earlier-frames", "objects-switched-off-between-frames", "window-switched-off-between-frames", "core-frame", "core-frame-oam-by-dma", "core-frame-jit-blocks"],
+    required_classes: &["window-visible", "object-visible", "bg-over-obj", "more-than-ten-on-a-line", "flipped-object", "tall-object", "overlapping-objects", "object-partly-off-screen", "wx-below-7", "wx-above-166", "signed-tile-addressing", "after-earlier-frames", "objects-switched-off-between-frames", "window-switched-off-between-frames", "tiles-rewritten-between-frames", "tiles-rewritten-and-same-tile-row-at-the-frame-seam", "core-frame", "core-frame-oam-by-dma", "core-frame-jit-blocks"],
     exhaustive: false,
 };
 
@@ -38,6 +38,24 @@ struct Case {
     /// palettes stay; registers and OAM are changed at the start of the vertical blank
     #[serde(default)]
     pre: Vec<(u8, u8, u8, u8, u8, Vec<[u8; 4]>)>,
+    /// tile data of the earlier frames (seed per earlier frame; maps are those of the measured
+    /// frame): the tiles are rewritten during the vertical blank before the measured frame
+    #[serde(default)]
+    pre_tiles: Vec<u64>,
+}
+
+/// video RAM of earlier frame k: other tile data under the same maps, if a seed is given
+fn pre_vram(c: &Case, k: usize, vram: &[u8]) -> Vec<u8> {
+    match c.pre_tiles.get(k) {
+        None => vram.to_vec(),
+        Some(seed) => {
+            let mut other = c.clone();
+            other.vram_seed = *seed;
+            let mut v = build_vram(&other);
+            v[0x1800..].copy_from_slice(&vram[0x1800..]);
+            v
+        }
+    }
 }
 
 fn case_json(c: &Case) -> Value {
@@ -148,7 +166,8 @@ fn setup(m: &mut i::M, c: &Case, vram: &[u8], oam: &[u8]) {
 }
 
 /// change registers and OAM without resetting the device (done during the vertical blank)
-fn rewrite(m: &mut i::M, c: &Case, oam: &[u8]) {
+fn rewrite(m: &mut i::M, c: &Case, vram: &[u8], oam: &[u8]) {
+    m.core.memory.video_ram.copy_from_slice(vram);
     m.core.memory.oam_ram.copy_from_slice(oam);
     m.write(0xff40, c.lcdc | 0x81);
     m.write(0xff42, c.scy);
@@ -230,6 +249,13 @@ fn exec(ms: &mut Machines, c: &Case, rec: &mut Rec, counting: bool) -> CaseResul
             if c.pre.iter().any(|p| p.0 & 0x20 != 0) && c.lcdc & 0x20 == 0 {
                 rec.class("window-switched-off-between-frames", 1);
             }
+            if !c.pre_tiles.is_empty() {
+                rec.class("tiles-rewritten-between-frames", 1);
+                let last = c.pre.len() - 1;
+                if c.pre_tiles.len() > last && (143u32 + c.pre[last].2 as u32) & 7 == c.scy as u32 & 7 {
+                    rec.class("tiles-rewritten-and-same-tile-row-at-the-frame-seam", 1);
+                }
+            }
         }
         for bit in 1..7 {
             if c.lcdc & (1 << bit) != 0 {
@@ -243,7 +269,8 @@ fn exec(ms: &mut Machines, c: &Case, rec: &mut Rec, counting: bool) -> CaseResul
     let r = guarded(|| {
         // earlier frames with other settings: what is presented afterwards must not depend on them
         let mut first = true;
-        for (lcdc, scx, scy, wx, wy, poam) in &c.pre {
+        for (k, (lcdc, scx, scy, wx, wy, poam)) in c.pre.iter().enumerate() {
+            let pv = pre_vram(c, k, &vram);
             let mut pc = c.clone();
             pc.lcdc = *lcdc | 0x81;
             pc.scx = *scx;
@@ -254,9 +281,9 @@ fn exec(ms: &mut Machines, c: &Case, rec: &mut Rec, counting: bool) -> CaseResul
             let po = build_oam(&pc);
             for m in [&mut ms.a, &mut ms.b] {
                 if first {
-                    setup(m, &pc, &vram, &po);
+                    setup(m, &pc, &pv, &po);
                 } else {
-                    rewrite(m, &pc, &po);
+                    rewrite(m, &pc, &pv, &po);
                 }
             }
             first = false;
@@ -271,8 +298,8 @@ fn exec(ms: &mut Machines, c: &Case, rec: &mut Rec, counting: bool) -> CaseResul
             setup(&mut ms.a, c, &vram, &oam);
             setup(&mut ms.b, c, &vram, &oam);
         } else {
-            rewrite(&mut ms.a, c, &oam);
-            rewrite(&mut ms.b, c, &oam);
+            rewrite(&mut ms.a, c, &vram, &oam);
+            rewrite(&mut ms.b, c, &vram, &oam);
         }
         for _ in 0..(70224 / 4) {
             ms.a.run_clocks(4);
@@ -333,7 +360,24 @@ fn case_strategy() -> impl Strategy<Value = Case> {
             2 => prop::collection::vec((any::<u8>(), any::<u8>(), any::<u8>(), any::<u8>(), 0u8..150, prop::collection::vec(oam_entry(), 0..=40)), 1..3),
         ],
     )
-        .prop_map(|((vram_seed, vram_kind, oam), (lcdc, scx, scy, wx, wy), (bgp, obp0, obp1, cuts), pre)| Case { vram_seed, vram_kind, oam, lcdc: lcdc | 0x81, scx, scy, wx, wy, bgp, obp0, obp1, cuts, pre })
+        .prop_map(|((vram_seed, vram_kind, oam), (lcdc, scx, scy, wx, wy), (bgp, obp0, obp1, cuts), mut pre)| {
+            // half of the cases with earlier frames also rewrite the tile data between frames;
+            // half of those line the last tile row of line 143 up with the first of line 0
+            let mut pre_tiles = Vec::new();
+            if !pre.is_empty() && vram_seed & 1 == 0 {
+                for k in 0..pre.len() {
+                    pre_tiles.push(crate::engine::splitmix(vram_seed ^ (k as u64 + 1)));
+                }
+                if vram_seed & 2 == 0 {
+                    let last = pre.len() - 1;
+                    pre[last].2 = scy.wrapping_add(1).wrapping_add((vram_seed >> 8) as u8 & 0xf8);
+                    if vram_seed & 4 == 0 {
+                        pre[last].1 = scx;
+                    }
+                }
+            }
+            Case { vram_seed, vram_kind, oam, lcdc: lcdc | 0x81, scx, scy, wx, wy, bgp, obp0, obp1, cuts, pre, pre_tiles }
+        })
 }
 
 // ---------------------------------------------------------------------------
@@ -463,7 +507,7 @@ fn run(rec: &mut Rec) {
     });
     core_layer(rec);
     rec.sample(|| {
-        case_json(&Case { vram_seed: 1, vram_kind: 2, oam: vec![[16, 8, 3, 0], [20, 12, 2, 0x80]], lcdc: 0xf7, scx: 3, scy: 250, wx: 87, wy: 40, bgp: 0xe4, obp0: 0xe4, obp1: 0x1b, cuts: vec![0x8000], pre: vec![] })
+        case_json(&Case { vram_seed: 1, vram_kind: 2, oam: vec![[16, 8, 3, 0], [20, 12, 2, 0x80]], lcdc: 0xf7, scx: 3, scy: 250, wx: 87, wy: 40, bgp: 0xe4, obp0: 0xe4, obp1: 0x1b, cuts: vec![0x8000], pre: vec![], pre_tiles: vec![] })
     });
 }
 
